@@ -81,7 +81,7 @@ func init() {
 			"(a) progress - bursts {1,2,10,100} x 1-4 rounds x 1-3 publishers while 1-3 subscribers keep reading: publishers return, accepted==popped, depth 0 and every popped message reaches every subscriber (unmet => decided at quiescence); " +
 			"(b) shutdown - stop point {idle, mid-dispatch with a non-reading subscriber, mid-publish, backlog} x {Stop, cancel parent} x Wait started before/after: Wait returns, pending calls return once their context ends, no broker goroutine in the census, " +
 			"Publish/Subscribe/Unsubscribe/Stats return after their context is cancelled; (c) 20-80 Stats calls whose context ends between request and reply (a context that flips after its first Done() call, and racing cancels) followed by a health probe; " +
-			"(d) hook: Stop/cancel landing between the idle dispatcher's predicate check and cond.Wait; (e) trickle: one constructor-built broker, 3000 awaited bursts of 1-2 messages (a message that waits for the next publish is stuck); (f) fill: 60 short-lived brokers per case whose 2-8 workers race for the last slots of an undrained buffered subscription, then Stop / cancel: Wait returns, nothing is left. distinct_nontrivial = distinct (mode, back-end, options, stop point/how/burst, GOMAXPROCS) decided",
+			"(d) hook: Stop/cancel landing between the idle dispatcher's predicate check and cond.Wait; (e) trickle: one constructor-built broker, 6000 awaited bursts of 1-2 messages (a message that waits for the next publish is stuck); (f) fill: 120 short-lived brokers per case (alternately a large idle pool parked on a Queue) whose 2-8 workers race for the last slots of an undrained buffered subscription, then Stop / cancel: Wait returns, nothing is left. distinct_nontrivial = distinct (mode, back-end, options, stop point/how/burst, GOMAXPROCS) decided",
 		assumptions: append([]string{"scenarios use no timers; verdicts on unmet expectations only at quiescence",
 			"Deque-backed brokers with >= 2 dispatch workers never become quiescent: unmet expectations there are counted as skipped"}, commonAssumptions...),
 		floorEvals:    100,
